@@ -34,11 +34,11 @@ pub const DROP_HANDLE: u8 = 8;
 
 pub fn ev_name(e: Ev) -> String {
     match e.k {
-        CREATE => format!("Acquire({},n={})", e.a, e.b),
+        CREATE => format!("Acquire({},n={})", e.a, SIZES[e.b as usize]),
         POLL => format!("Poll({},{})", e.a, fl(e.b)),
         DROP_FUT => format!("DropFut({})", e.a),
-        TRY_ACQUIRE => format!("TryAcquire(n={})", e.a),
-        RELEASE => format!("Release(n={})", e.a),
+        TRY_ACQUIRE => format!("TryAcquire(n={})", SIZES[e.a as usize]),
+        RELEASE => format!("Release(n={})", RELEASES[e.a as usize]),
         DROP_REL => format!("DropReleaser({})", e.a),
         DISARM => format!("Disarm({})", e.a),
         POLL_DONE => format!("PollAfterCompletion({})", e.a),
@@ -180,7 +180,10 @@ pub struct SemInner<A: SemApi> {
 }
 
 const BOUND_TOTAL: usize = 3;
-const FREE_TOTAL: usize = 9;
+const FREE_TOTAL: usize = 24;
+/// request sizes by index (index is what the event carries)
+const SIZES: [usize; 6] = [0, 1, 2, 3, 5, 8];
+const RELEASES: [usize; 5] = [0, 1, 2, 4, 7];
 
 impl<A: SemApi> SemInner<A> {
     fn total(&self) -> usize {
@@ -281,7 +284,7 @@ impl<A: SemApi> SemInner<A> {
             match &s.fut {
                 None => {
                     if !created && !self.serial.exhausted() {
-                        for n in 0..(if self.bounded { 3 } else { 4 }) {
+                        for n in 0..(if self.bounded { 3 } else { SIZES.len() as u8 }) {
                             out.push(Ev::new(CREATE, i as u8, n));
                         }
                         created = true;
@@ -298,14 +301,17 @@ impl<A: SemApi> SemInner<A> {
                 }
             }
         }
-        for n in 0..3 {
+        for n in 0..(if self.bounded { 3 } else { SIZES.len() as u8 }) {
             out.push(Ev::new(TRY_ACQUIRE, n, 0));
         }
         let cap = if self.bounded { BOUND_TOTAL } else { FREE_TOTAL };
         // release(0) is legal and must be a no-op
-        for n in 0..3usize {
+        for (ix, n) in RELEASES.iter().enumerate() {
+            if self.bounded && ix > 2 {
+                break;
+            }
             if self.total() + n <= cap {
-                out.push(Ev::new(RELEASE, n as u8, 0));
+                out.push(Ev::new(RELEASE, ix as u8, 0));
             }
         }
         for i in 0..self.rels.len() {
@@ -339,7 +345,7 @@ impl<A: SemApi> SemInner<A> {
         match ev.k {
             CREATE => {
                 let sem = &self.sem;
-                let n = ev.b as usize;
+                let n = SIZES[ev.b as usize];
                 self.slots.create(a, &mut self.serial, ctx, n as u64, || sem.acquire(n));
             }
             POLL => {
@@ -392,6 +398,7 @@ impl<A: SemApi> SemInner<A> {
                 self.slots.drop_fut(a, ctx, 0);
             }
             TRY_ACQUIRE => {
+                let a = SIZES[a];
                 let before = self.model;
                 let sem = &self.sem;
                 match call(ctx, "try_acquire", 0, 0, || sem.try_acquire(a)) {
@@ -411,6 +418,7 @@ impl<A: SemApi> SemInner<A> {
                 }
             }
             RELEASE => {
+                let a = RELEASES[a];
                 let sem = &self.sem;
                 let mark = crate::wakers::log_mark();
                 call(ctx, "release", 0, 0, || sem.release(a));
